@@ -81,7 +81,7 @@ pub fn oracle(tr: &Transition) -> Vec<Violation> {
 pub fn run(report: &Report, budget: &Budget) {
     let thorough = report.thorough();
     let depth = if thorough { 3 } else { 2 };
-    let st = hist::explore(report, budget, "C17", depth, thorough, false, &oracle, None, None);
+    let st = hist::explore(report, budget, "C17", depth, thorough, false, thorough, &oracle, None, None);
     hist::write_stats(report, &st, depth);
     let re = REEXEC.load(Ordering::Relaxed);
     report.set("re_executions_under_other_flavours", json!(re));
